@@ -947,6 +947,8 @@ func parseSortText(s string) *Sort {
 		return sortIface
 	case "Str":
 		return sortStr
+	case "Bytes":
+		return &Sort{K: SOpaque, Name: "Bytes"}
 	}
 	if strings.HasPrefix(s, "(_ BitVec ") {
 		n, _ := strconv.Atoi(strings.TrimSuffix(strings.TrimPrefix(s, "(_ BitVec "), ")"))
@@ -1180,6 +1182,24 @@ func (env *SpecEnv) callExpr(e *SExpr) SVal {
 			cs = append(cs, b.T)
 		}
 		return SVal{T: tAnd(cs...)}
+	case "ghost":
+		if len(e.Args) != 1 || e.Args[0].Op != "id" {
+			env.fail("ghost(NAME)")
+		}
+		comp, ok := vc.ghostComp(e.Args[0].Name)
+		if !ok {
+			env.fail("undeclared ghost %s (use '//@ ghost NAME SORT')", e.Args[0].Name)
+		}
+		return SVal{T: vc.heapGet(env.st.heap, comp)}
+	case "bytes":
+		// bytes(s): abstract content of a byte slice or string
+		x := env.eval(e.Args[0])
+		if x.GoT != nil && isString(x.GoT) {
+			vc.needBytes, vc.needStr = true, true
+			return SVal{T: mk("(str-bytes "+x.T.S+")", &Sort{K: SOpaque, Name: "Bytes"})}
+		}
+		vw := env.view(x)
+		return SVal{T: vc.bytesOf(vw.Arr, vw.Off, vw.Len)}
 	case "has":
 		// has(m, k): key k is present in map m
 		m := env.eval(e.Args[0])
